@@ -1,4 +1,5 @@
 import WfModel.IterUtils
+import WfModel.IterDebounce
 import Driver.Util
 open IterUtils Drv
 
@@ -9,6 +10,9 @@ open IterUtils Drv
   dinit <gen|legacy|fixed>   start a debounced_sorted_prefix (items are key:uid pairs)
   dprod <key> <uid> | dend | derr <e> | fire | mark | dfin | dbatch <i,j,..> | dresume
   out                        everything yielded so far
+  c29deb_init <d> <w> <start>   start a Debouncer (integers: clock ticks)
+  c29deb_extend <t> | c29deb_loop <t>   extend_window() / one iteration of _loop at clock value t
+  c29deb_state               fired / number of loop iterations / extend calls before the signal / lateness
 
   answers: `ok emit=<..> [yield=<..>] phase=<..>` / `disabled` (action not enabled) / `bad-op` -/
 namespace Drv.IterUtils
@@ -17,6 +21,7 @@ inductive St where
   | none
   | merge (m : Merge Nat)
   | dsp (d : Dsp (Nat × Nat))
+  | deb (b : Deb)
 
 def showPhase : Phase α → String
   | .waiting => "wait"
@@ -54,8 +59,40 @@ def dspAct (st : St) (a : DAct (Nat × Nat)) : St × String :=
     | none => (st, "disabled")
   | _ => (st, "bad-op")
 
+def debAct (st : St) (a : DebAct) : St × String :=
+  match st with
+  | .deb b =>
+    match b.step a with
+    | some b' =>
+      let r := match a with
+        | .extend _ => s!"ok complete={b'.complete}"
+        | .loop _ => match b'.fired with
+          | some t => s!"ok fired={t}"
+          | none => s!"ok sleep={b'.wakeAt}"
+      (.deb b', r)
+    | none => (st, "disabled")
+  | _ => (st, "bad-op")
+
 def step (st : St) (line : String) : St × String :=
   match line.splitOn " " with
+  | ["c29deb_init", d, w, t0] =>
+    match d.toInt?, w.toInt?, t0.toInt? with
+    | some d, some w, some t0 => (.deb (Deb.init d w t0), s!"ok wake={t0}")
+    | _, _, _ => (st, "bad-op")
+  | ["c29deb_extend", t] =>
+    match t.toInt? with
+    | some t => debAct st (.extend t)
+    | none => (st, "bad-op")
+  | ["c29deb_loop", t] =>
+    match t.toInt? with
+    | some t => debAct st (.loop t)
+    | none => (st, "bad-op")
+  | ["c29deb_state"] =>
+    match st with
+    | .deb b =>
+      let f := match b.fired with | some t => toString t | none => "-"
+      (st, s!"state fired={f} wakes={b.wakes} exts={b.exts.length} late={b.late}")
+    | _ => (st, "bad-op")
   | ["minit", f, n] =>
     match parseBool? f, parseNat? n with
     | some f, some n =>
@@ -112,7 +149,7 @@ def step (st : St) (line : String) : St × String :=
     match st with
     | .merge m => (st, "out " ++ (if m.out.isEmpty then "-" else ",".intercalate (m.out.map fun (i, v) => s!"{i}:{v}")))
     | .dsp d => (st, "out " ++ showItems d.dout)
-    | .none => (st, "bad-op")
+    | _ => (st, "bad-op")
   | _ => (st, "bad-op")
 
 end Drv.IterUtils
